@@ -89,7 +89,9 @@ Record output_end_agrees (static : bool) (ob arr oa : info) : Prop := mk_oea {
   (* unset ones are taken from the arriving request *)
   oea_fill_grid : i_grid ob = None -> i_grid oa = i_grid arr;
   oea_fill_units : i_units ob = None -> i_units oa = i_units arr;
-  oea_fill_time : i_time ob = None -> i_time oa = i_time arr;
+  oea_fill_time : static = false -> i_time ob = None -> i_time oa = i_time arr;
+  (* a static output never adopts a time: its time stays as stated, set or unset *)
+  oea_static_time : static = true -> i_time oa = i_time ob;
   oea_fill_meta : forall k, mget k (i_meta ob) = Some None -> mget k (i_meta oa) = mget k (i_meta arr);
   oea_meta_keys : forall k, mget k (i_meta ob) = None -> mget k (i_meta oa) = None
 }.
@@ -118,8 +120,9 @@ Definition conflict (down up : info) : Prop :=
   grid_conflict down up \/ units_conflict down up \/ mask_conflict down up.
 Definition is_refusal {A : Type} (r : xres A) : Prop := r = XMeta \/ r = XOther.
 
-Definition fully_set (oi : info) : Prop :=
-  i_grid oi <> None /\ i_time oi <> None /\ i_units oi <> None /\ Forall (fun kv => snd kv <> None) (i_meta oi).
+Definition fully_set (static : bool) (oi : info) : Prop :=
+  i_grid oi <> None /\ (static = false -> i_time oi <> None) /\ i_units oi <> None
+  /\ Forall (fun kv => snd kv <> None) (i_meta oi).
 
 (** the exchange of one consumer alone with a producer whose info is [oi] *)
 Definition single (static : bool) (oi : info) (c : consumer) : xres info :=
@@ -336,7 +339,7 @@ Qed.
 Lemma fill_info_ok : forall st oi req d,
   fill_info st oi req = XOk d ->
   i_grid d = orelse (i_grid oi) (i_grid req) /\ i_grid d <> None /\
-  i_time d = orelse (i_time oi) (i_time req) /\ (st = false -> i_time d <> None) /\
+  i_time d = (if st then i_time oi else orelse (i_time oi) (i_time req)) /\ (st = false -> i_time d <> None) /\
   i_units d = orelse (i_units oi) (i_units req) /\ i_units d <> None /\
   i_mask d = i_mask oi /\ (i_mask oi = None -> i_mask req <> None) /\
   fill_meta (i_meta oi) (i_meta req) = Some (i_meta d).
@@ -353,14 +356,17 @@ Proof.
   - intros Hn. rewrite Hn in Em. simpl in Em. destruct (i_mask req); simpl in *; try discriminate.
 Qed.
 
-Lemma fill_info_id : forall st oi req d, fully_set oi -> fill_info st oi req = XOk d -> d = oi.
+Lemma fill_info_id : forall st oi req d, fully_set st oi -> fill_info st oi req = XOk d -> d = oi.
 Proof.
   intros st oi req d [Hg [Ht [Hu Hm]]] H. unfold fill_info in H.
   destruct oi as [t g mk u m]; simpl in *.
-  destruct g as [g|]; try congruence. destruct t as [t|]; try congruence. destruct u as [u|]; try congruence.
+  destruct g as [g|]; try congruence. destruct u as [u|]; try congruence.
   simpl in H. rewrite (fill_meta_id m (i_meta req) Hm) in H.
   destruct (negb (is_some mk) && negb (is_some (i_mask req))); try discriminate.
-  inversion H. reflexivity.
+  destruct st.
+  - destruct (negb (is_some t) && negb true && negb (is_some (i_time req))); try discriminate.
+    inversion H. reflexivity.
+  - destruct t as [t|]; [|exfalso; apply Ht; reflexivity]. simpl in H. inversion H. reflexivity.
 Qed.
 
 (** * Facts about a successful answer of the output *)
@@ -384,11 +390,12 @@ Proof.
     apply masks_compatible_spec_in in Hm. exact Hm.
   - intros g Eg. rewrite Fg, Eg. reflexivity.
   - intros u Eu. rewrite Fu, Eu. reflexivity.
-  - intros t Et. rewrite Ft, Et. reflexivity.
+  - intros t Et. rewrite Ft, Et. destruct (o_static o); reflexivity.
   - intros k v Ek. destruct (Hmeta k) as [Hk _]. rewrite Ek in Hk. exact Hk.
   - intros Eg. rewrite Fg, Eg. reflexivity.
   - intros Eu. rewrite Fu, Eu. reflexivity.
-  - intros Et. rewrite Ft, Et. reflexivity.
+  - intros Hs Et. rewrite Ft, Hs, Et. reflexivity.
+  - intros Hs. rewrite Ft, Hs. reflexivity.
   - intros k Ek. destruct (Hmeta k) as [Hk _]. rewrite Ek in Hk. exact Hk.
   - intros k Ek. destruct (Hmeta k) as [Hk _]. rewrite Ek in Hk. exact Hk.
 Qed.
@@ -665,7 +672,7 @@ Qed.
 
 (** * C07_fanout_order *)
 Lemma out_get_info_full : forall o oi req o' d,
-  o_info o = Some oi -> fully_set oi -> out_get_info o req = XOk (o', d) -> d = oi /\ o_info o' = Some oi.
+  o_info o = Some oi -> fully_set (o_static o) oi -> out_get_info o req = XOk (o', d) -> d = oi /\ o_info o' = Some oi.
 Proof.
   intros o oi req o' d Ho Hf H. apply out_get_info_ok in H. destruct H as [oi' [Ho' [_ [Hfill ->]]]].
   rewrite Ho in Ho'. inversion Ho'; subst oi'. apply fill_info_id in Hfill; auto. subst. auto.
@@ -686,7 +693,7 @@ Proof.
 Qed.
 
 Lemma chain_indep : forall chain o1 o2 oi req,
-  fully_set oi -> o_info o1 = Some oi -> o_info o2 = Some oi -> o_static o1 = o_static o2 ->
+  fully_set (o_static o1) oi -> o_info o1 = Some oi -> o_info o2 = Some oi -> o_static o1 = o_static o2 ->
   snd (chain_get_info chain o1 req) = snd (chain_get_info chain o2 req)
   /\ o_info (fst (chain_get_info chain o1 req)) = Some oi
   /\ o_static (fst (chain_get_info chain o1 req)) = o_static o1.
@@ -704,7 +711,7 @@ Proof.
 Qed.
 
 Lemma input_exchange_indep : forall chain o oi req,
-  fully_set oi -> o_info o = Some oi ->
+  fully_set (o_static o) oi -> o_info o = Some oi ->
   snd (input_exchange chain o req) = snd (input_exchange chain (mkO (Some oi) (o_static o) 0 0) req)
   /\ o_info (fst (input_exchange chain o req)) = Some oi
   /\ o_static (fst (input_exchange chain o req)) = o_static o.
@@ -718,7 +725,7 @@ Qed.
 
 (** every consumer gets exactly what it would get alone *)
 Lemma run_all_single : forall cs o oi,
-  fully_set oi -> o_info o = Some oi ->
+  fully_set (o_static o) oi -> o_info o = Some oi ->
   forall l, snd (run_all o cs) = XOk l <-> Forall2 (fun c ii => single (o_static o) oi c = XOk ii) cs l.
 Proof.
   induction cs as [|c cs IH]; intros o oi Hf Ho l; simpl.
@@ -727,7 +734,8 @@ Proof.
     + inversion H; subst. reflexivity.
   - destruct (input_exchange_indep (c_chain c) o oi (c_info c) Hf Ho) as [Ha [Hb Hc]].
     destruct (input_exchange (c_chain c) o (c_info c)) as [o1 r] eqn:Ee. simpl in Ha, Hb, Hc.
-    specialize (IH o1 oi Hf Hb). rewrite Hc in IH.
+    assert (Hf1 : fully_set (o_static o1) oi) by (rewrite Hc; exact Hf).
+    specialize (IH o1 oi Hf1 Hb). rewrite Hc in IH.
     split; intros H.
     + destruct r as [ii| | |]; simpl in H; try discriminate.
       destruct (run_all o1 cs) as [o2 rr] eqn:Er. simpl in H, IH.
@@ -754,7 +762,7 @@ Proof.
 Qed.
 
 Theorem fanout_order_main : forall oi st n cs cs' l,
-  fully_set oi -> Permutation cs cs' ->
+  fully_set st oi -> Permutation cs cs' ->
   snd (run_all (init_out (Some oi) st n) cs) = XOk l ->
   Forall2 (fun c ii => single st oi c = XOk ii) cs l /\
   exists l', snd (run_all (init_out (Some oi) st n) cs') = XOk l'
@@ -767,11 +775,13 @@ Proof.
   destruct (Forall2_perm _ _ _ _ _ Hp _ H) as [l' [Hf' Hq]].
   exists l'. split; [|split; auto].
   - apply (run_all_single cs' (init_out (Some oi) st n) oi Hf eq_refl l'). exact Hf'.
-  - assert (Hinfo : forall cs0 o, o_info o = Some oi -> o_info (fst (run_all o cs0)) = Some oi).
-    { induction cs0 as [|c0 cs0 IH]; intros o Ho; simpl; auto.
-      destruct (input_exchange_indep (c_chain c0) o oi (c_info c0) Hf Ho) as [_ [Hb _]].
-      destruct (input_exchange (c_chain c0) o (c_info c0)) as [o1 r]. simpl in Hb.
-      destruct r; simpl; auto. specialize (IH o1 Hb). destruct (run_all o1 cs0). simpl in *. auto. }
+  - assert (Hinfo : forall cs0 o, o_info o = Some oi -> o_static o = st -> o_info (fst (run_all o cs0)) = Some oi).
+    { induction cs0 as [|c0 cs0 IH]; intros o Ho Hst; simpl; auto.
+      assert (Hfo : fully_set (o_static o) oi) by (rewrite Hst; exact Hf).
+      destruct (input_exchange_indep (c_chain c0) o oi (c_info c0) Hfo Ho) as [_ [Hb Hc]].
+      destruct (input_exchange (c_chain c0) o (c_info c0)) as [o1 r]. simpl in Hb, Hc.
+      destruct r; simpl; auto. assert (Hst1 : o_static o1 = st) by congruence.
+      specialize (IH o1 Hb Hst1). destruct (run_all o1 cs0). simpl in *. auto. }
     rewrite !Hinfo; auto.
 Qed.
 
@@ -804,7 +814,7 @@ Proof.
   - apply (oea_fill_units _ _ _ _ Hout). assumption.
   - rewrite <- (oea_fill_units _ _ _ _ Hout) by assumption.
     destruct (i_units oa) as [g|] eqn:E; try congruence. apply K2. reflexivity.
-  - apply (oea_fill_time _ _ _ _ Hout). assumption.
+  - apply (oea_fill_time _ _ _ _ Hout); assumption.
   - rewrite <- (oea_fill_time _ _ _ _ Hout) by assumption.
     destruct (i_time oa) as [g|] eqn:E; [apply K3; reflexivity|]. exfalso. apply Ct; auto.
 Qed.
